@@ -35,9 +35,9 @@ from harness import persist  # noqa: E402
 
 def jobs(tier):  # noqa: F811
     js = _plans.mboxops_jobs(PROPERTY, tier) + persist.jobs_restart("C02", tier)
-    js.append({"name": "uidvv_step", "module": "harness.persist", "fn": "uidvv_step", "params": {"prop": "C02"}, "timeout": 300 if tier == "quick" else 900, "per_path": 120, "unblock": persist.UNBLOCK})
-    js.append({"name": "codec", "module": "harness.c02", "fn": "codec", "params": {}, "timeout": 300 if tier == "quick" else 900})
-    js.append({"name": "copyuid_format", "module": "harness.c02", "fn": "copyuid_format", "params": {}, "timeout": 300 if tier == "quick" else 900})
+    js.append({"name": "uidvv_step", "module": "harness.persist", "fn": "uidvv_step", "params": {"prop": "C02"}, "timeout": 600 if tier == "quick" else 900, "per_path": 120, "unblock": persist.UNBLOCK})
+    js.append({"name": "codec", "module": "harness.c02", "fn": "codec", "params": {}, "timeout": 600 if tier == "quick" else 900})
+    js.append({"name": "copyuid_format", "module": "harness.c02", "fn": "copyuid_format", "params": {}, "timeout": 600 if tier == "quick" else 900})
     return js
 
 
